@@ -19,6 +19,7 @@ import (
 	"golang.org/x/crypto/chacha20poly1305"
 
 	"github.com/postalsys/muti-metroo/internal/crypto"
+	"github.com/postalsys/muti-metroo/verifharness/cryptomesh"
 	"github.com/postalsys/muti-metroo/verifharness/vh"
 )
 
@@ -112,6 +113,10 @@ func storm(sk *crypto.SessionKey, g, m, plen int, start <-chan struct{}, wg *syn
 func main() {
 	c := vh.Start("C02")
 	defer c.Finish()
+	if cryptomesh.IsChild() {
+		ackReplay(c)
+		return
+	}
 	c.Res.Rule = "case = one end of a real session (role, start counter) with G concurrent senders x M Encrypt calls while the other end is hammered at the same time; " +
 		"the multiset of emitted 12-byte nonces is compared with the model's; non-trivial = at least 2 calls; distinct = distinct (role,start,G,M)"
 
@@ -237,7 +242,7 @@ func main() {
 	}
 
 	if c.Replay == "" {
-		ackReplay(c)
+		cryptomesh.Run(c, func() { ackReplay(c) })
 	}
 
 	var sb strings.Builder
